@@ -15,7 +15,7 @@ from __future__ import annotations
 ID = "C74"
 LEVEL = "exploration"
 TIERS = {
-    "quick": {"runs": 700, "wall": 85, "chunk": 6, "shrink_s": 60, "run_cap_s": 120},
+    "quick": {"runs": 2400, "wall": 85, "chunk": 10, "shrink_s": 60, "run_cap_s": 120},
     "thorough": {"runs": 60_000, "wall": 840, "chunk": 10, "shrink_s": 120, "run_cap_s": 120},
 }
 RULE = (
